@@ -4,10 +4,10 @@ The statement is an implication between predicates on link state.  Each predicat
 code (path conditions of the selector loops, return formulas of the two `any` closures, the value stored to
 `stall_gated`) and the chain of implications is decided propositionally.
 """
-from ..ctx import full_slice_element, is_iter_next, CONN, is_call, is_field, sname
-from ..expr import show, walk
+from ..ctx import full_slice_element, is_iter_next, loop_of_element, CONN, is_call, is_field, sname
+from ..expr import show, strip_old, walk
 from ..linkpred import LINK, NOW, LinkSpace, closure_rt, find_link_and_now, mapping_for
-from ..pathcond import calls_to, field_stores
+from ..pathcond import PathA, calls_to, field_stores
 
 from .. import roles
 
@@ -397,7 +397,67 @@ def d7_hysteresis(ctx):
     ctx.chk.floor("D7", "current_score := Some(..) stores", n, 1)
 
 
-RULES = [d1_d3_gate_chain, d2b_flag_never_stale, d4_gate_multiplier, d5_initial_best, d6_phase_tables, d7_hysteresis]
+def d2c_gate_judges_liveness_with_current_timeout(ctx):
+    """`usable` is judged with the configured timeout: inside select_connection_idx the per-link copy that is_timed_out compares
+    against is refreshed - for every link, from the snapshot - before anything in the pass reads it (the gate's any-healthy test,
+    the latch updates, both selectors)."""
+    gate = ctx.fn(GATE, "D2")
+    to = ctx.fn(CONN + "::is_timed_out", "D2")
+    if not gate or not to:
+        return
+    eff = ctx.eff
+    key = (CONN, "conn_timeout_ms")
+    if key not in eff.R(to.id):
+        ctx.chk.ob("D2", "the liveness test reads the snapshot directly", True, "", key="D2:timeout-read-from-config", nontrivial=False)
+        return
+    fa = ctx.fa(gate)
+    cfg = ctx.cfg(gate)
+    # the refresh: a store conn_timeout_ms := config.conn_timeout_ms on the element of a whole-slice loop without early exit
+    refresh = None
+    for (bb, si, s) in field_stores(gate, CONN, "conn_timeout_ms"):
+        v = strip_old(fa.val_rvalue(s["rv"], (bb, si)))
+        dst = fa.val_place(s["p"], (bb, si))
+        link = dst[1] if dst[0] == "field" else None
+        from_cfg = is_field(v, "conn_timeout_ms") and "ConfigSnapshot" in str(v[2]) and v[1] == ("param", 3)
+        if from_cfg and link is not None and full_slice_element(link, ("param", 1)) is not None:
+            lp = loop_of_element(gate, fa, link)
+            if lp is not None and not lp["exits"]:
+                pa2 = PathA(ctx.w, gate, entry=lp["some"])
+                if pa2.pc_at(bb, si) == pa2.bdd.TRUE:
+                    refresh = lp
+    ctx.chk.ob("D2", "apply_stall_gate refreshes every link's timeout copy from the snapshot (whole slice, unconditionally)", refresh is not None, "", key="D2:timeout-refresh-loop")
+    if refresh is None:
+        return
+    done = refresh["none"]   # the loop has finished
+    readers = []
+    for (bb, t) in gate.calls():
+        f = t["f"]
+        ids = eff._callee_ids(f) if "id" in f else []
+        reads = any(key in eff.R(i) for i in ids)
+        # closures handed to std (the `any` predicate) are constructed in this body: their reads count at the call that takes them
+        n = len(gate.blocks[bb]["stmts"])
+        for a in t["args"]:
+            v = fa.val_operand(a, (bb, n))
+            for x in walk(v):
+                if x[0] == "agg" and x[1] == "closure" and x[2] in ctx.w.fns and key in eff.R(x[2]):
+                    reads = True
+        if reads:
+            readers.append((bb, t))
+    bad = [(bb, t) for (bb, t) in readers if not cfg.dominates(done, bb)]
+    ctx.chk.floor("D2", "reads of the per-link timeout inside apply_stall_gate", len(readers), 1)
+    ctx.chk.ob("D2", "every liveness judgement inside apply_stall_gate (the any-healthy test included) comes after the refresh of all links", not bad,
+               "read before the refresh completed: %s" % [(t["f"].get("path", "?").rsplit("::", 1)[-1], t.get("loc")) for (bb, t) in bad][:3], key="D2:timeout-refresh-before-liveness-tests")
+    # and the gate runs before either selector
+    sel = ctx.fn("srtla_core::selection::select_connection_idx", "D2")
+    if sel:
+        scfg = ctx.cfg(sel)
+        g = calls_to(sel, stable=GATE)
+        others = [(bb, t) for (bb, t) in sel.calls() if t["f"].get("stable") in (CLASSIC, ENH)]
+        ok = len(g) == 1 and len(others) == 2 and all(scfg.dominates(g[0][0], bb) for (bb, t) in others)
+        ctx.chk.ob("D2", "both selectors run after the gate (and therefore after the refresh)", ok, "", key="D2:gate-before-selectors")
+
+
+RULES = [d1_d3_gate_chain, d2b_flag_never_stale, d2c_gate_judges_liveness_with_current_timeout, d4_gate_multiplier, d5_initial_best, d6_phase_tables, d7_hysteresis]
 
 
 def run(ctx):
